@@ -22,8 +22,39 @@ pub mod state_handle {
     use super::shims::*;
     use log::Record;
     use std::path::PathBuf;
-    /// SHIM for `enum StateHandle` (decided in unit `handle`): the operations FileLogWriter forwards to
+    use std::time::Duration;
+    /// SHIM for `State` / `WriteMode`: only the effective write mode of the configuration matters in `FileLogWriter::new`
+    //@ item src/write_mode.rs enum EffectiveWriteMode
+    pub struct WriteMode { _o: () }
+    pub uninterp spec fn effective(m: WriteMode) -> EffectiveWriteMode;
+    impl WriteMode {
+        #[verifier::external_body]
+        pub(crate) fn effective_write_mode(&self) -> (r: EffectiveWriteMode) ensures r == effective(*self) { unimplemented!() }
+    }
+    pub struct FileLogWriterConfig2 { pub write_mode: WriteMode }
+    pub struct State { pub cfg: FileLogWriterConfig2, pub id: int }
+    impl State {
+        #[verifier::external_body]
+        pub fn config(&self) -> (r: &FileLogWriterConfig2) ensures *r == self.cfg { unimplemented!() }
+    }
+    /// SHIM (R4): the fn-pointer alias FormatFunction
+    #[derive(Clone, Copy)]
+    pub struct VFormatFn { _o: () }
+    /// SHIM for `enum StateHandle` (decided in unit `handle`): the operations FileLogWriter forwards to; `made` records what
+    /// a handle was made from (state, format function, asynchronous?)
     pub struct StateHandle { _o: () }
+    pub uninterp spec fn made(h: StateHandle) -> (State, VFormatFn, bool);
+    pub uninterp spec fn async_capas(h: StateHandle) -> (usize, usize);
+    impl StateHandle {
+        #[verifier::external_body]
+        pub(super) fn new_sync(state: State, format_function: VFormatFn) -> (r: StateHandle)
+            ensures made(r) == (state, format_function, false)
+        { unimplemented!() }
+        #[verifier::external_body]
+        pub(super) fn new_async(pool_capa: usize, message_capa: usize, state: State, format_function: VFormatFn) -> (r: StateHandle)
+            ensures made(r) == (state, format_function, true), async_capas(r) == (pool_capa, message_capa)
+        { unimplemented!() }
+    }
     /// permission: the record that may reach the state handle / the bytes that may be written raw
     pub uninterp spec fn sh_write_ok(record: &Record) -> bool;
     pub uninterp spec fn sh_plain_ok(buf: Seq<u8>) -> bool;
@@ -59,8 +90,16 @@ pub mod file_log_writer {
 
     //@ item src/writers/file_log_writer.rs struct FileLogWriter
     //@   dropattr #[derive
+    type FormatFunction = VFormatFn;
     impl FileLogWriter {
         pub closed spec fn ceiling(&self) -> log::LevelFilter { self.max_log_level }
+        pub closed spec fn handle(&self) -> StateHandle { self.state_handle }
+    //@ fn src/writers/file_log_writer.rs impl FileLogWriter / fn new
+    //@   ret r
+    //@   props C20,C15,C13
+    //@   ens[FileLogWriter::new.post.ceiling] r.ceiling() == max_log_level
+    //@   ens[FileLogWriter::new.post.made_from] made(r.handle()).0 == state && made(r.handle()).1 == format_function
+    //@   ens[FileLogWriter::new.post.mode] made(r.handle()).2 == !(effective(state.cfg.write_mode) is Direct || effective(state.cfg.write_mode) is BufferAndFlushWith || effective(state.cfg.write_mode) is BufferDontFlushWith)
     //@ fn src/writers/file_log_writer.rs impl FileLogWriter / fn plain_write
     //@   ret r
     //@   props C15
